@@ -252,7 +252,8 @@ func (b *structuredLogBuilder) WithBody(e middleware.LogEntry) {
 	}
 
 	res := e.Response
-	if res != nil && res.Body != nil {
+	// The body of a 101 response is the connection to the server, there is nothing to read to the end.
+	if res != nil && res.Body != nil && res.StatusCode != http.StatusSwitchingProtocols {
 		data, err := io.ReadAll(res.Body)
 		if err != nil {
 			b.res.BodyError = err.Error()
